@@ -36,7 +36,7 @@ def run_case(case: dict) -> dict:
         pm.cob_id = 0x201
         var = pm.add_variable(0x2000, 0)
         odv = var.od
-    odv.factor = fn / fd
+    odv.factor = fn if fd == 1 else fn / fd        # an integer factor stays an int, as read from EDS / EPF
     for val, name in case["descs"]:
         odv.add_value_description(val, name)
     for name, bits in case["bitdefs"]:
@@ -82,10 +82,11 @@ def run_case(case: dict) -> dict:
                     pm.on_message(pm.cob_id, bytearray(b), 1.0) if op.get("how") == "other" and pm.cob_id else var.set_data(b)
             elif o == "phys_set":
                 e["vn"], e["vd"] = op["vn"], op["vd"]
+                pv = op["vn"] // op["vd"] if op["vn"] % op["vd"] == 0 and op.get("as_int", True) else op["vn"] / op["vd"]
                 if use_fn():
-                    var.write(op["vn"] / op["vd"], fmt="phys")
+                    var.write(pv, fmt="phys")
                 else:
-                    var.phys = op["vn"] / op["vd"]
+                    var.phys = pv
                 e["after"] = lb(var.read("raw") if use_fn() else var.raw)
             elif o == "phys_get":
                 p = var.read(fmt="phys") if use_fn() else var.phys
